@@ -192,7 +192,18 @@ def run(ctx):
         ap = taskmaps.find_appends(mp, "offsets_map")
         if len(ap) == 1:
             map_form = taskmaps.sem_in(mp, ap[0].args[0], map_pl[0].var, ap[0].lineno)
-    ctx.check(len(map_pl) == 1 and map_pl[0].table == "self.cells[lv]['files']" and map_form is not None,
+    map_table = map_pl[0].table if len(map_pl) == 1 else None
+    if map_form is None:
+        # the same map written as one comprehension: return [<entry(f)> for f in np.unique(<files>)]
+        for r in walk_no_nested(mp.node):
+            if isinstance(r, ast.Return) and isinstance(r.value, ast.ListComp) and len(r.value.generators) == 1 \
+                    and not r.value.generators[0].ifs and isinstance(r.value.generators[0].target, ast.Name):
+                g0 = r.value.generators[0]
+                it = rules.deep(g0.iter, rules.local_env(mp.node), mp.params)
+                if it in ("np.unique(np.array(self.cells[lv]['files']))", "np.unique(self.cells[lv]['files'])"):
+                    map_table = "self.cells[lv]['files']"
+                    map_form = taskmaps.sem_in(mp, r.value.elt, g0.target.id, r.lineno)
+    ctx.check(map_table == "self.cells[lv]['files']" and map_form is not None,
               f"{P}.P5", mp.site, "the scatter map has one entry per np.unique(files) of the first plotfile's level",
               f"map_bfile_offsets iterates {[p.table for p in map_pl]}")
     sorted_form = map_form is not None and "ARGSORT" in map_form
